@@ -50,6 +50,16 @@ fn write_atom_encoding_prefix_with_size<W: io::Write>(
     }
 }
 
+/// verification hook: exposes the private length-prefix writer to the harness crate
+#[cfg(chia_network_clvm_rs_verif)]
+pub fn verif_write_atom_encoding_prefix_with_size<W: io::Write>(
+    f: &mut W,
+    atom_0: u8,
+    size: u64,
+) -> Result<()> {
+    write_atom_encoding_prefix_with_size(f, atom_0, size)
+}
+
 /// serialize an atom
 pub fn write_atom<W: io::Write>(f: &mut W, atom: &[u8]) -> Result<()> {
     let u8_0 = if !atom.is_empty() { atom[0] } else { 0 };
